@@ -30,10 +30,13 @@ def save_meta(d, m):
     json.dump(m, open(os.path.join(d, "meta.json"), "w"), indent=1)
 
 
-def do_import(pid, round2=False):
+def do_import(pid, round2=False, round3=False):
     src = "/tmp/mut-%s-out" % pid
     variants = "AB"
-    if round2:
+    if round3:
+        src = "/tmp/mut3-%s-out" % pid      # third round: variants E and F
+        variants = "EF"
+    elif round2:
         src = "/tmp/mut2-%s-out" % pid      # second round: variants C and D
         variants = "CD"
     for v in variants:
@@ -178,6 +181,8 @@ if __name__ == "__main__":
             do_import(a)
         elif cmd == "import2":
             do_import(a, round2=True)
+        elif cmd == "import3":
+            do_import(a, round3=True)
         elif cmd == "confirm":
             do_confirm(a)
         elif cmd == "detect":
